@@ -2,7 +2,8 @@
 (* Reference semantics of gonum's spatial indexes (spatial/kdtree,           *)
 (* spatial/vptree): whatever the tree looks like, it is a BAG of points, and  *)
 (* every query is defined on that bag by a linear scan with exact integer     *)
-(* squared Euclidean distances.  Points live on a small integer lattice so    *)
+(* squared Euclidean distances (and, for the box query kdtree.DoBounded, by    *)
+(* the closed-box membership test of kdtree.Bounding.Contains).  Points live on a small integer lattice so    *)
 (* that ties, duplicates and collinear points are the rule, not the exception.*)
 (*                                                                            *)
 (* A history is: a bulk construction from the sequence `built` followed by    *)
@@ -25,6 +26,7 @@ CONSTANTS Dim,       \* dimension of the space
                      \* integer: sum of (actual + Off) * 64^(Dim - i)  (cfg files hold no tuples)
           KSet,      \* k values for k-nearest
           RSet,      \* squared radii for within-radius
+          BoxCodes,  \* corner points of the query boxes of DoBounded (encoded like QCodes)
           Emit       \* BOOLEAN: generator role
 
 VARIABLES built, ins
@@ -94,6 +96,15 @@ BoxMin(P) == [i \in 1 .. Len(P[1]) |-> MinC(P, i, Len(P))]
 BoxMax(P) == [i \in 1 .. Len(P[1]) |-> MaxC(P, i, Len(P))]
 InBox(P, q) == Len(P) > 0 /\ \A i \in 1 .. Len(q) : BoxMin(P)[i] <= q[i] /\ q[i] <= BoxMax(P)[i]
 
+\* The box query (kdtree.DoBounded: "performs fn on all values stored in the tree that are
+\* within the specified bound"; Bounding.Contains is the closed box): the sub-bag of the
+\* stored points p with lo <= p <= hi componentwise, by a scan in storage order.
+Leq(a, b) == \A i \in 1 .. Len(a) : a[i] <= b[i]
+InClosed(lo, hi, p) == Leq(lo, p) /\ Leq(p, hi)
+BoxScan(P, lo, hi) == SelectSeq(P, LAMBDA p : InClosed(lo, hi, p))
+Corners == {Decode(c) : c \in BoxCodes}
+Boxes == {b \in Corners \X Corners : Leq(b[1], b[2])}
+
 \* Is a bounding volume recorded?  New(p, bb) records one iff bb and p is not
 \* empty; Insert(c, ib) into an empty tree decides by ib, afterwards the tree
 \* keeps its mode (kdtree.Insert documentation).
@@ -140,6 +151,15 @@ WithinOK == \A q \in Queries : \A i \in DOMAIN Rs :
 Unique == \A q \in Queries : \A R \in {KNearest(QD(q), k) : k \in 0 .. MaxTotal} :
              \A i \in DOMAIN Ks : IsKNearest(R, QD(q), Ks[i]) => R = KNearest(QD(q), Ks[i])
 BoxOK == Len(All) > 0 => \A i \in 1 .. Len(All) : InBox(All, All[i])
+\* the scan answer is exactly the sub-bag inside the closed box; it grows with the box; the
+\* minimal box of the bag returns the whole bag
+PCnt(S, p) == Cardinality({i \in 1 .. Len(S) : S[i] = p})
+BoxScanOK ==
+  /\ \A b \in Boxes : LET R == BoxScan(All, b[1], b[2]) IN
+        \A p \in Range(All) \cup Range(R) : PCnt(R, p) = IF InClosed(b[1], b[2], p) THEN PCnt(All, p) ELSE 0
+  /\ \A b, c \in Boxes : (Leq(c[1], b[1]) /\ Leq(b[2], c[2])) =>
+        Len(BoxScan(All, b[1], b[2])) <= Len(BoxScan(All, c[1], c[2]))
+  /\ Len(All) > 0 => BoxScan(All, BoxMin(All), BoxMax(All)) = All
 
 (**************************** generator role (R2) *****************************)
 Act(p) == [i \in 1 .. Len(p) |-> p[i] - Off]
@@ -162,5 +182,6 @@ EmitState ==
      bounded |-> {[bb |-> bb, ib |-> ib, v |-> Bounded(Len(built), Len(ins), bb, ib)] : bb \in BOOLEAN, ib \in BOOLEAN},
      box |-> IF Len(All) = 0 THEN <<>> ELSE <<Act(BoxMin(All)), Act(BoxMax(All))>>,
      ks |-> Ks, rs |-> Rs, rsq |-> [i \in DOMAIN Rs |-> IsSquare(Rs[i])],
+     boxes |-> {[lo |-> Act(b[1]), hi |-> Act(b[2]), pts |-> ActSeq(BoxScan(All, b[1], b[2]))] : b \in Boxes},
      qs |-> {QueryRec(q) : q \in Queries}]))
 =============================================================================
